@@ -192,9 +192,17 @@ def run(ctx):
         ctx.violation("GEOS does not build with -DGEOS_VERIF", {"kind": "build-failure", "log": out[-3000:]}, nofail=True)
         return
     exe, out = verif.build_harness("c17")
+    hole_class_available = True
     if not exe:
-        ctx.violation("harness c17 does not compile against the current tree", {"kind": "tie-broken", "correspondence": "harness/c17.cpp", "log": out[-3000:]}, nofail=True)
-        return
+        # the stream hole-class calls PRIVATE members of GeometryFixer by name (fixRing / fixHoles / classifyHoles): a behaviour-preserving
+        # refactoring of that private interface must not raise an alarm — build without the stream and tie the hole phase through the
+        # makevalid stream alone for this run (same policy as a refusal of the translator, DESIGN 8.9)
+        exe, out2 = verif.build_harness("c17", extra=["-DC17_NO_HOLECLASS"])
+        hole_class_available = False
+        if not exe:
+            ctx.violation("harness c17 does not compile against the current tree", {"kind": "tie-broken", "correspondence": "harness/c17.cpp", "log": (out + out2)[-3000:]}, nofail=True)
+            return
+        log("harness c17: the private hole-phase members of GeometryFixer are not reachable under their names; stream hole-class skipped for this run")
     quick = ctx.tier == "quick"
     n = 4800 if quick else 240000
     found_input = False
@@ -258,10 +266,15 @@ def run(ctx):
                        "verdict": got, "signature": sig}, signature=sig)
     # the hole phase of fixPolygonElement: which fixed holes the real classifyHoles subtracts / adds, against the model
     nh = 1200 if quick else 60000
-    rh = verif.run_stream(exe, HOLE_STREAM, ctx.seed, nh, ctx.work, shards=8, driver_exe=DRV, timeout=12000)
-    hd = all_disagreements(ctx.work, HOLE_STREAM, 8, rh)
-    corr[HOLE_STREAM] = {"cases": rh["cases"], "disagreements": len(hd),
-                         "distribution": {k: v for k, v in rh["stats"].items() if not k.startswith("family_")}}
+    if hole_class_available:
+        rh = verif.run_stream(exe, HOLE_STREAM, ctx.seed, nh, ctx.work, shards=8, driver_exe=DRV, timeout=12000)
+        hd = all_disagreements(ctx.work, HOLE_STREAM, 8, rh)
+        corr[HOLE_STREAM] = {"cases": rh["cases"], "disagreements": len(hd),
+                             "distribution": {k: v for k, v in rh["stats"].items() if not k.startswith("family_")}}
+    else:
+        rh, hd = {"error": None}, []
+        corr[HOLE_STREAM] = {"cases": 0, "disagreements": 0, "skipped": "the private members GeometryFixer::fixRing / fixHoles / classifyHoles are not reachable under "
+                             "these names in the current tree; the hole phase is tied through the makevalid stream alone for this run"}
     if rh["error"]:
         ctx.violation("stream %s could not run: %s" % (HOLE_STREAM, rh["error"]), {"kind": "tie-broken", "correspondence": HOLE_STREAM, "detail": rh["error"]}, nofail=True)
     hole_failing = False
